@@ -30,6 +30,16 @@ func init() {
 	_ = hashOnly
 	pn := profGeneral
 	pn.wParseNil = 25
+	// the largest windows with tiny hash tables and many NoTrailingLiterals blocks: after a truncated
+	// block the table holds positions AHEAD of the window head; offsets are computed in 32-bit types
+	phw := profGeneral.withKinds("HP", "BHP", "DHP", "BDHP", "BUP")
+	phw.hugeWin = true
+	phw.ntlPct = 60
+	phw.badCfgPct = 0
+	phw.wReset, phw.wParseNil = 1, 1
+	phw.staleBias = true // small alphabet: n-grams recur inside the trailing literals
+	phw.stream = 300
+	suites["p-hugewin"] = pSuite(phw, []string{"p.parse.ntl.truncated"})
 	suites["p-nil"] = pSuite(pn, []string{"p.parsenil.data"})
 	suites["p-nil-GSAP"] = pSuite(pn.withKinds("GSAP"), []string{"p.parsenil.data"})
 	pv := profGeneral
